@@ -742,14 +742,23 @@ impl Session {
                         alert_msg
                     ));
                     stream.close_with_error(error).await;
+                    // Release everyone waiting on this stream: a pending open gets the
+                    // alert as its reason, a blocked reader sees end-of-stream.
+                    stream
+                        .notify_synack(Err(AnyTlsError::Protocol(format!(
+                            "Session closed due to alert: {}",
+                            alert_msg
+                        ))))
+                        .await;
+                    self.stream_receive_tx.write().await.remove(&stream_id);
                     tracing::debug!("[Session] Closed stream {} due to alert", stream_id);
                 }
                 drop(streams);
                 #[cfg(feature = "verif")]
                 crate::verif::point("hf.alert.after_drain").await;
-                // Mark session as closed
-                self.is_closed
-                    .store(true, std::sync::atomic::Ordering::Relaxed);
+                // Close the session (marks it closed, wakes the background tasks,
+                // shuts the transport down)
+                let _ = self.close().await;
                 return Err(AnyTlsError::Protocol(format!("Alert: {}", alert_msg)));
             }
             Command::HeartRequest => {
